@@ -963,6 +963,13 @@ class Interp:
 
     def binop(self, st, op, a, b):
         a, b = st.force(a), st.force(b)
+        h = getattr(getattr(self.task, "c", None), "binop", None)
+        if h is not None:
+            # contract-file hook for operand kinds the core does not model (e.g. str + chr(k) on a modelled string);
+            # NotImplemented falls through to the core rules
+            r = h(self, st, op, a, b)
+            if r is not NotImplemented:
+                return r
         if not isinstance(a, Sym) and not isinstance(b, Sym):
             try:
                 return self._concrete_binop(op, a, b)
